@@ -40,6 +40,30 @@ ENV = {
     "mt": ["", "application/octet-stream", "application/vnd.oci.image.layer.v1.tar+gzip"],
     "auth": [0, 1],
 }
+# redirects inside the upload session (environment: http.Client follows them, the code only sees the
+# URL that finally answered).  Which request kinds the front door redirects, where to (other host with
+# its own path space / same host, own path space / other host, same paths), 307 or 308, one or two
+# hops, reference form of the redirect, and in which URL space the node names the session afterwards.
+REDIR_KINDS = ["patch", "patch,put,get,delete", "post", "post,patch,put,get,delete", "put", "get",
+               "put,get,delete", "post,put", "patch,get", "delete"]
+REDIR_TO = ["host", "path", "hostsame"]
+REDIR_SYSTEMATIC = [(k, to, lf, sp) for k in REDIR_KINDS for to in REDIR_TO for lf in ("path", "rel", "url", "mix", "dots")
+                    for sp in ("node", "front")]
+
+
+def set_redir(scn, kinds, to, lform, lspace, rng, fullput=False):
+    scn["redir"], scn["rto"], scn["lspace"] = kinds, to, lspace
+    if lform is not None:
+        scn["lform"] = lform
+    scn["rcode"] = rng.choice([307, 307, 308, 308, 301, 302, 303])  # 30x: the status GET only, the rest 307
+    scn["rloc"] = rng.choice(["url", "path"])
+    scn["rhops"] = 2 if rng.random() < 0.2 else 1
+    # a redirected single request upload from a source that cannot be rewound fails by necessity
+    # ((P) waives O3 there); the model does not know redirects, so its prediction does not apply
+    if scn["seek"] != 1 and fullput and "put" in kinds.split(","):
+        scn["adapt"] = 1
+
+
 WRONGSIZE = ("sizeplus", "sizeminus", "sizeonlyplus", "sizeonlyminus", "prefix")
 
 
@@ -88,8 +112,16 @@ def to_drv(s, sid, rng):
         if scn["loc"] != "query":
             shapes = ["none"] + shapes
         scn["qshape"] = "" if rng.random() < 0.35 else rng.choice(shapes)
-        scn["lform"] = "" if rng.random() < 0.35 else rng.choice(["path", "rel", "url", "mix"])
-        scn["lhost"] = 1 if rng.random() < 0.3 else 0
+        scn["lform"] = "" if rng.random() < 0.35 else rng.choice(["path", "rel", "url", "mix", "dots", "net"])
+        x = rng.random()
+        scn["lhost"] = 1 if x < 0.25 else 2 if x < 0.35 else 0
+        if rng.random() < 0.35:
+            kinds = REDIR_KINDS
+            if any(st["on"] == "get" for st in s["script"]) and rng.random() < 0.6:
+                kinds = [k for k in REDIR_KINDS if "get" in k.split(",")]   # the status request is rare: use it
+            set_redir(scn, rng.choice(kinds), rng.choice(REDIR_TO), None,
+                      "node" if rng.random() < 0.75 else "front", rng,
+                      fullput=any(st["on"] == "put" and st["n"] > 0 for st in s["script"]))
     # OCI layout: a second put that overlaps this one (well formed puts only, so that what the
     # peer commits cannot be mistaken for a commit of this put)
     if cf["dest"] == "ocidir" and cf["len"] > 0 and cf["decl"] in ("none", "right", "digonly", "sizeonly") \
@@ -241,8 +273,15 @@ def run(ctx):
     mc.append(ctx.tlc("BlobPutMC", "C05_live.cfg", timeout=1500, label="termination (liveness)", workers=8))
     mc.append(ctx.tlc("BlobPutOci", "C05_mc_oci.cfg", timeout=900, workers=4,
                       label="two overlapping puts on one OCI layout, every interleaving"))
+    mc.append(ctx.tlc("BlobPutLoc", "C05_mc_loc.cfg", timeout=900, workers=2,
+                      label="session URLs: redirects (any subset of 5 requests) x target x Location form x answer space x "
+                            "token style; every request reaches the session"))
     # expected counterexamples that do not belong to an open finding are checked at the thorough tier only
     if thorough:
+        r = ctx.tlc("BlobPutLoc", "C05_mc_known_locbase.cfg", allow_violation=True, workers=2,
+                    label="expected: a Location resolved against the requested URL loses a redirected session")
+        if r["violated"] != "Reached":
+            raise vlib.ToolError("BlobPutLoc.tla does not depend on the base of the Location reference any more")
         r = ctx.tlc("BlobPutOci", "C05_mc_oci_fixed.cfg", allow_violation=True, workers=4,
                     label="expected: with one temp name per digest an overlapping put overwrites a committed blob")
         if r["violated"] != "SuccessMeansStored":
@@ -318,11 +357,24 @@ def run(ctx):
         d = to_drv(s, sid, rng)
         drv.append(d)
         model[sid] = s
-    exact_ids = set(model)
+    # redirects, systematically: every combination of (redirected kinds, target, Location form, URL
+    # space the node answers in) on breadth first scenarios with a well formed input and no fault
+    combos = list(REDIR_SYSTEMATIC)
+    random.Random(5).shuffle(combos)
+    n_redir_sys = 0
+    for d in drv:
+        if n_redir_sys >= 2 * len(combos):
+            break
+        if d["dest"] == "reg" and d["id"].startswith(("gen_core", "gen_bf")) and d["decl"] in ("none", "right") \
+                and d["seek"] == 1 and not d["enforce"] and d["len"] >= 2 and d["loc"] != "plain":
+            d.pop("adapt", None)
+            set_redir(d, *combos[n_redir_sys % len(combos)], rng)
+            n_redir_sys += 1
+    exact_ids = set(model) - {d["id"] for d in drv if d.get("adapt")}
     var = variants([d for d in drv if d["id"].startswith(("gen_core", "gen_sim", "gen_bf", "gen_retry"))], rng, 3000 if thorough else 300)
     drv += var
     for b in var:
-        if b["variant"] in ("unit1", "unit64k"):  # only the scale changes: the model's prediction still applies
+        if b["variant"] in ("unit1", "unit64k") and not b.get("adapt"):  # only the scale changes: the model's prediction still applies
             model[b["id"]] = model[b["base"]]
             exact_ids.add(b["id"])
 
@@ -491,6 +543,8 @@ def run(ctx):
                 "(destination, descriptor kind, source kind, pre-existing content, length, server event sequence)",
         "exhaustive": False,
         "tlc_scenarios": len(tlc_scns), "replayed_exactly": exact, "byte_level_variants": adapted,
+        "redirect_scenarios": sum(1 for d in drv if d.get("redir")), "redirect_systematic": n_redir_sys,
+        "redirects_observed": sum(1 for t in traces for e in t["events"] if e["ev"] == "redir"),
         "model_drift": drift, "rejected": len(rejected), "s13_refusals_observed": s13, "skipped_known_finding_class": skipped_known, "binding_demos_rejected": demos,
         "entry_points": ["regclient.BlobPut", "scheme/reg.(*Reg).BlobPut", "scheme/ocidir.(*OCIDir).BlobPut"],
     }
@@ -502,5 +556,8 @@ def run(ctx):
         "416 for out of order chunks, an empty session is reported as Range 0--1; a destination that enforces "
         "OCI-Chunk-Min-Length never accepts a chunk partially",
         "O3 is demanded only for traces without injected transient failures",
+        "a conforming destination may answer any request of the upload session with a 307 / 308 redirect to another "
+        "host or path (the status GET also with 301-303) and name the session by any URI reference of RFC 3986; a "
+        "redirected single request PUT from a source that cannot be rewound is treated like a refused one (O3 waived)",
     ]
     return "model_checking", cov, assumptions
